@@ -16,7 +16,7 @@ CONSTANTS
   Dev_PerRequestBound = FALSE
   AsIs_NoSeqCheck = FALSE
   AsIs_MergeDupFilter = FALSE
-  AsIs_ShortChunkPanics = TRUE
+  AsIs_ShortChunkPanics = FALSE
   AsIs_PerRequestBound = TRUE
 INVARIANTS InvEmit
 CHECK_DEADLOCK FALSE
